@@ -157,16 +157,10 @@ theorem growth_doubles : Geo growth := fun n c => by
 the capacity never decreases except by `shrink_to_fit`, which makes it exactly the size; `reserve(n)` makes it at least `n`;
 the storage (hence every iterator / reference into it) stays the same **iff** the new size fits into the old capacity
 (for `reserve`: iff `n` does), and then the capacity is unchanged too; under a doubling policy (`growth_doubles`) a
-capacity that changes at least doubles. -/
+capacity that changes at least doubles.  (`CapFacts`, FcpptProofs/C07/Extra.lean, spells these out per operation.) -/
 theorem capacity_and_reallocation (g : Nat → Nat → Nat) (hg : ∀ n c, n ≤ g n c) {h : Heap} {v : RV} {l : List Int}
     (hwf : HeapWf h) (ho : Owns h v l) (o : VOp) (l' : List Int) (ret : Option Nat) (hs : svstep l o = some (l', ret)) :
-    ∃ h' v', vstep g h v o = .ok (h', v', ret) ∧ Owns h' v' l' ∧
-      match o with
-      | .shrink => v'.cap = l'.length
-      | .reserve n => n ≤ v'.cap ∧ v.cap ≤ v'.cap ∧ (v'.base = v.base ↔ n ≤ v.cap) ∧ (v'.base = v.base → v'.cap = v.cap) ∧
-          (Geo g → v'.cap = v.cap ∨ 2 * v.cap ≤ v'.cap)
-      | _ => v.cap ≤ v'.cap ∧ (v'.base = v.base ↔ l'.length ≤ v.cap) ∧ (v'.base = v.base → v'.cap = v.cap) ∧
-          (Geo g → v'.cap = v.cap ∨ 2 * v.cap ≤ v'.cap) := by
+    ∃ h' v', vstep g h v o = .ok (h', v', ret) ∧ Owns h' v' l' ∧ CapFacts g v v' l' o := by
   obtain ⟨h', v', he, ho', _⟩ := vstep_spec g hg hwf ho o l' ret hs
   have hc := vstep_capacity g hg hwf ho o l' ret hs he
   have hlt := ho.base_lt hwf
@@ -177,9 +171,10 @@ theorem capacity_and_reallocation (g : Nat → Nat → Nat) (hg : ∀ n c, n ≤
     rw [hl']; exact this
   refine ⟨h', v', he, ho', ?_⟩
   cases o with
-  | shrink => simp only [CapSpec] at hc ⊢; omega
+  | shrink => simp only [CapSpec] at hc; simp only [CapFacts]; omega
   | reserve n =>
-    simp only [CapSpec] at hc ⊢
+    simp only [CapSpec] at hc
+    simp only [CapFacts]
     obtain ⟨_, hc⟩ := hc
     rcases hc with ⟨a1, a2, a3⟩ | ⟨a1, ⟨b, ab, abn⟩, a3, a4, a5⟩
     · exact ⟨by omega, by omega, ⟨fun _ => a1, fun _ => a2⟩, fun _ => a3, fun _ => Or.inl a3⟩
@@ -199,6 +194,16 @@ theorem capacity_and_reallocation (g : Nat → Nat → Nat) (hg : ∀ n c, n ≤
   | clear => exact gen hc
   | assign a x => exact gen hc
   | insertSelf pos a b => exact gen hc
+
+/-- the same after every valid history, for every register -/
+theorem capacity_in_histories (g : Nat → Nat → Nat) (hg : ∀ n c, n ≤ g n c) (ops : List Op) (ss1 : SSt)
+    (hs : srunAll SSt.init ops = some ss1) (r : Nat) (o : VOp) (l' : List Int) (ret : Option Nat)
+    (ho : svstep (ss1.vec r) o = some (l', ret)) :
+    ∃ st1 h' v', runAll g St.init ops = .ok st1 ∧ vstep g st1.heap (st1.vec r) o = .ok (h', v', ret) ∧ Owns h' v' l' ∧
+      CapFacts g (st1.vec r) v' l' o := by
+  obtain ⟨st1, he, G⟩ := history_from_init g hg ops ss1 hs
+  obtain ⟨h', v', hv, hown, hc⟩ := capacity_and_reallocation g hg G.ledger.wf (G.vec r) o l' ret ho
+  exact ⟨st1, h', v', he, hv, hown, hc⟩
 
 /-- `resize_write_area(n)` of a buffer keeps the storage iff `n` cells fit behind the read area -/
 theorem buffer_reallocation {g : Nat → Nat → Nat} {st : St} {ss : SSt} (G : GInv st ss) (k n : Nat) {h' : Heap} {b' : Buf}
